@@ -430,7 +430,7 @@ int main(int argc, char** argv) {
       if (C[i]) { API(yr_compiler_destroy(C[i])); C[i] = NULL; }
       API(rc = yr_compiler_create(&C[i]));
       if (rc != ERROR_SUCCESS) C[i] = NULL;
-      else { yr_compiler_set_callback(C[i], comp_cb, NULL); if (kvl("inc", 0)) yr_compiler_set_include_callback(C[i], inc_cb, inc_free, NULL); }
+      else { C[i]->strict_escape = kvl("strict", 0) != 0; yr_compiler_set_callback(C[i], comp_cb, NULL); if (kvl("inc", 0)) yr_compiler_set_include_callback(C[i], inc_cb, inc_free, NULL); }
 #ifdef YARA_VERIF
       yr_verif_arena_initial_size = 0;
 #endif
